@@ -101,33 +101,29 @@ theorem xml_lex_roundtrip : type_of% @Verif.Proofs.C09Xml.xml_lex_roundtrip := @
     from its own serialisation -/
 theorem xml_lex_sound : type_of% @Verif.Proofs.C09Xml.xml_lex_sound := @Verif.Proofs.C09Xml.xml_lex_sound
 
-/-- **XML, bytes level, no guard**: for every byte string the independent tokeniser accepts, the output of the model of
+/-- **XML, bytes level**: for every byte string the independent tokeniser accepts, the output of the model of
     `xml.Minify` on its tokens is accepted again and re-tokenises to exactly the intended stream.  NOTE the front end here is
     the SPECIFICATION tokeniser (PI data is one raw item); the real dependency lexer splits PI data into pseudo-attributes
-    and deviates on DOCTYPE/PI corner cases (K-C09-Xml-1, -4, -5) — for streams of the real lexer's shape use the guarded
-    `xml_output_relexes_partial` -/
+    and deviates on DOCTYPE (K-C09-Xml-4, open) and on `>` inside PI data (K-C06-8) — for streams of the real lexer's
+    shape use `xml_output_relexes` (full since /repo 59fe76b) -/
 theorem xml_accepted_in_accepted_out : type_of% @Verif.Proofs.C09Xml.xml_accepted_in_accepted_out :=
   @Verif.Proofs.C09Xml.xml_accepted_in_accepted_out
 
 /-- every finite sequence of passes (any options) over an accepted document is defined and ends in an accepted document -/
 theorem xml_passes_defined : type_of% @Verif.Proofs.C09Xml.xml_passes_defined := @Verif.Proofs.C09Xml.xml_passes_defined
 
-/-- **XML flagship** (guard: trigger of K-C09-Xml-1): for all options and all lexer-contract streams with grammatical
+/-- **XML flagship** (full since /repo 59fe76b): for all options and all lexer-contract streams with grammatical
     tokens, the output bytes of the model of `xml.Minify` re-tokenise to exactly the emitted stream (reader's view),
     which is grammatical -/
-theorem xml_output_relexes_partial : type_of% @Verif.Proofs.C09Xml.xml_output_relexes_partial :=
-  @Verif.Proofs.C09Xml.xml_output_relexes_partial
+theorem xml_output_relexes : type_of% @Verif.Proofs.C09Xml.xml_output_relexes :=
+  @Verif.Proofs.C09Xml.xml_output_relexes
 
 /-- the stream read back has exactly the markup skeleton (tags, attributes, CDATA, DOCTYPE, PI targets) and the bytes
     of the emitted stream -/
 theorem xml_output_markup_exact : type_of% @Verif.Proofs.C09Xml.xml_output_markup_exact :=
   @Verif.Proofs.C09Xml.xml_output_markup_exact
 
-/-- the unguarded flagship statement is false: `<a><?x k="?&gt;"?></a>` → `<a><?x k="?>"?></a>` (K-C09-Xml-1) -/
-theorem xml_output_relexes_counterexample : type_of% @Verif.Proofs.C09Xml.xml_output_relexes_counterexample :=
-  @Verif.Proofs.C09Xml.xml_output_relexes_counterexample
-
-/-- **XML second pass** (same guard): the stream read back from the output satisfies all hypotheses of the C06 and
+/-- **XML second pass** (full): the stream read back from the output satisfies all hypotheses of the C06 and
     C09 theorems again; the output of a second pass (any options) re-tokenises to its intended stream -/
 theorem xml_second_pass_defined : type_of% @Verif.Proofs.C09Xml.xml_second_pass_defined :=
   @Verif.Proofs.C09Xml.xml_second_pass_defined
@@ -139,37 +135,23 @@ theorem xml_idempotent_counterexample : type_of% @Verif.Proofs.C09Xml.xml_idempo
 /-- **SVG `bracketWriter`**: `bw.n` is the number of `]` at the end of everything written -/
 theorem xml_svg_bracket_count : type_of% @Verif.Proofs.C09Xml.svg_bracket_count := @Verif.Proofs.C09Xml.svg_bracket_count
 
-/-- **SVG text branch**: for every `bw.n` and grammatical text token the written bytes are well-formed character
-    data and complete no `]]>` (outside `style` / without a CSS minifier; inside `style` these bytes go to the
-    sub-minifier) -/
+/-- **SVG text branch**, every sub-minifier function: for every `bw.n` and grammatical text token the written bytes have
+    no `<`, no bare `&`, complete no `]]>` (the host checks the sub-minifier's result since d582c28); full `WfText` when
+    the bytes do not come from the sub-minifier -/
 theorem xml_svg_text_wellformed : type_of% @Verif.Proofs.C09Xml.svg_text_wellformed :=
   @Verif.Proofs.C09Xml.svg_text_wellformed
 
-/-- SVG text inside `style`, by contract `SubTextOk` on the sub-minifier -/
-theorem xml_svg_text_wellformed_sub : type_of% @Verif.Proofs.C09Xml.svg_text_wellformed_sub :=
-  @Verif.Proofs.C09Xml.svg_text_wellformed_sub
-
-/-- the contract is needed: a sub-minifier that only removes spaces creates `]]>` (K-C09-Xml-2 on the real code) -/
-theorem xml_svg_style_text_counterexample : type_of% @Verif.Proofs.C09Xml.svg_style_text_counterexample :=
-  @Verif.Proofs.C09Xml.svg_style_text_counterexample
-
-/-- **SVG CDATA branch**: text path safe for every sub-minifier with legal output; kept path a well-formed CDATA
-    section outside `style`, inside `style` by contract `NoCdEndOut` -/
+/-- **SVG CDATA branch**, every sub-minifier function with legal output: text path safe; a kept section is a
+    well-formed CDATA section (a result containing `]]>` is not used since d582c28) -/
 theorem xml_svg_cdata_wellformed : type_of% @Verif.Proofs.C09Xml.svg_cdata_wellformed :=
   @Verif.Proofs.C09Xml.svg_cdata_wellformed
 
-/-- the contract is needed: removing spaces inside a kept `style` CDATA section creates `]]>` (K-C09-Xml-2) -/
-theorem xml_svg_cdata_kept_counterexample : type_of% @Verif.Proofs.C09Xml.svg_cdata_kept_counterexample :=
-  @Verif.Proofs.C09Xml.svg_cdata_kept_counterexample
-
 /-- **SVG attribute values**: the preprocessed value is a sequence of units; `EscapeAttrVal` of any sequence of
-    units is a well-formed literal with that normalised value -/
+    units is a well-formed literal with that normalised value; the `style` attribute for every inline sub-minifier
+    function: quoted, quote-safe, no `<`, no bare `&` -/
 theorem xml_svg_attr_wellformed : type_of% @Verif.Proofs.C09Xml.svg_attr_wellformed :=
   @Verif.Proofs.C09Xml.svg_attr_wellformed
 
-/-- `EscapeAttrVal` does not repair a sub-minifier result with a bare `&` or `<` (K-C09-Xml-3 on the real code) -/
-theorem xml_svg_attr_contract_needed : type_of% @Verif.Proofs.C09Xml.svg_attr_contract_needed :=
-  @Verif.Proofs.C09Xml.svg_attr_contract_needed
 /-! ## Css -/
 
 /-- **CSS, declaration writer**: for all admissible values (`valsOk`: every lexeme a closed token of its type for the
